@@ -21,11 +21,153 @@ type propC10 struct{}
 func init() { RegisterProperty(propC10{}) }
 
 func (propC10) ID() string      { return "C10" }
-func (propC10) Modes() []string { return []string{"errors"} }
+func (propC10) Modes() []string { return []string{"errors", "upstream-errors"} }
 
 var errorSources = []string{"header", "url", "body", "rule", "err-plain", "err-sebuf", "err-validation", "err-custom", "err-wrapped-custom"}
 
+// drawUpstreamErrors: the generated clients against a peer (gateway, proxy, another server)
+// that answers with an error status and a body that may or may not be what the generated
+// server would send. "The clients turn a 400 into a validation error carrying the same
+// violations and any other failure into an error carrying the same status and message or
+// body" holds for whatever the body is.
+func drawUpstreamErrors(rt *rapid.T, w *WorldDesc) *Plan {
+	p := &Plan{Mode: "upstream-errors"}
+	methods := w.AllMethods()
+	if len(methods) == 0 {
+		return p
+	}
+	p.Clients = [][]Opt{{{Kind: "contentType", Value: "application/json"}}}
+	nOps := rapid.IntRange(1, 3).Draw(rt, "nOps")
+	for i := 0; i < nOps; i++ {
+		l := fmt.Sprintf("op%d", i)
+		md := methods[rapid.IntRange(0, len(methods)-1).Draw(rt, l+".rpc")]
+		op := &Op{ID: i, RPC: md.Key, Server: "rogue", Client: "go"}
+		if globalBridge != nil && rapid.Bool().Draw(rt, l+".tsclient") {
+			op.Client = "ts"
+		}
+		req := drawValidReq(rt, w, md, l+".req")
+		if op.Client == "ts" {
+			scrubNonFinite(req.ProtoReflect(), 0)
+		}
+		if rpc := w.RPC(md.Key); rpc != nil {
+			for _, h := range ValidHeaders(rpc, i) {
+				op.Opts = append(op.Opts, Opt{Kind: "header", Key: h[0], Value: h[1]})
+			}
+		}
+		status := rapid.SampledFrom([]int{400, 400, 400, 401, 404, 409, 422, 429, 500, 502, 503}).Draw(rt, l+".status")
+		ve := &sebufhttp.ValidationError{Violations: []*sebufhttp.FieldViolation{{Field: "user.email", Description: "must be a valid e-mail é"}, {Field: "X-Tenant", Description: "required header is missing"}}}
+		veJSON, _ := protojson.Marshal(ve)
+		ct := "application/json"
+		var body []byte
+		kind := rapid.IntRange(0, 7).Draw(rt, l+".kind")
+		switch kind {
+		case 0:
+			body = veJSON
+		case 1:
+			body, _ = protojson.Marshal(&sebufhttp.Error{Message: rapid.SampledFrom([]string{"upstream unavailable", "quota é exceeded", `say "hi"`}).Draw(rt, l+".msg")})
+		case 2:
+			body = veJSON[:rapid.IntRange(1, len(veJSON)-1).Draw(rt, l+".cut")] // cut by a byte limit
+		case 3:
+			body = nil
+		case 4:
+			body = []byte("null")
+		case 5:
+			body = []byte("<html><body><h1>502 Bad Gateway</h1></body></html>")
+			ct = rapid.SampledFrom([]string{"text/html", "application/json"}).Draw(rt, l+".htmlct")
+		case 6:
+			body = []byte(rapid.SampledFrom([]string{"[]", "[1,2]"}).Draw(rt, l+".arr"))
+		case 7:
+			body = []byte(rapid.SampledFrom([]string{`"just a string"`, "42", "true"}).Draw(rt, l+".scalar"))
+		}
+		op.Rogue = &RogueResp{Status: status, Headers: [][2]string{{"Content-Type", ct}}, Body: body}
+		op.Notes = append(op.Notes, fmt.Sprintf("up=%d", kind))
+		op.ReqBin = mustMarshal(req)
+		op.ReqJSON = jsonOf(req)
+		op.RespBin = mustMarshal(md.NewResp())
+		op.DeadlineMs = 60000
+		p.Ops = append(p.Ops, op)
+	}
+	p.Schedule = drawSchedule(rt, 32)
+	return p
+}
+
+func checkUpstreamErrors(k *Kernel, cov *Coverage) *Violation {
+	for _, c := range k.Calls {
+		up := noteOf(c.Op, "up")
+		if up == "" || c.Op.Rogue == nil || !c.Returned {
+			continue
+		}
+		status, body := c.Op.Rogue.Status, string(c.Op.Rogue.Body)
+		sig := func(class string) string {
+			return fmt.Sprintf("C10|%s|%s>upstream|status=%d|body-kind=%s", class, c.Op.Client, status, up)
+		}
+		if c.PanicVal != nil {
+			return &Violation{Class: "client-panic", Signature: sig("client-panic"), Detail: fmt.Sprint(c.PanicVal)}
+		}
+		if c.Err == nil {
+			return &Violation{Class: "client-swallowed-error", Signature: sig("client-swallowed-error"),
+				Detail: fmt.Sprintf("op %d: upstream answered %d %q, the %s client returned success", c.Op.ID, status, truncBytes(c.Op.Rogue.Body), c.Op.Client)}
+		}
+		wantViolations := ""
+		if up == "0" {
+			ve := &sebufhttp.ValidationError{}
+			_ = protojson.Unmarshal(c.Op.Rogue.Body, ve)
+			wantViolations = strings.Join(violationSet(ve), "|")
+		}
+		var cve *sebufhttp.ValidationError
+		switch c.Op.Client {
+		case "go":
+			switch {
+			case up == "0" && status == 400:
+				if !errors.As(c.Err, &cve) || strings.Join(violationSet(cve), "|") != wantViolations {
+					return &Violation{Class: "client-400-not-validation-error", Signature: sig("client-400-not-validation-error"),
+						Detail: fmt.Sprintf("op %d: 400 with violations [%s], Go client returned %T %v", c.Op.ID, wantViolations, c.Err, c.Err)}
+				}
+			case up == "3":
+				// empty body: nothing but the status could be carried; no verdict on its form
+			case up == "1":
+				var ce *sebufhttp.Error
+				want := &sebufhttp.Error{}
+				_ = protojson.Unmarshal(c.Op.Rogue.Body, want)
+				if errors.As(c.Err, &ce) {
+					if ce.GetMessage() != want.GetMessage() {
+						return &Violation{Class: "client-message-differs", Signature: sig("client-message-differs"),
+							Detail: fmt.Sprintf("op %d: upstream sent message %q, client error carries %q", c.Op.ID, want.GetMessage(), ce.GetMessage())}
+					}
+				} else if !strings.Contains(c.Err.Error(), fmt.Sprint(status)) {
+					return &Violation{Class: "client-error-loses-status", Signature: sig("client-error-loses-status"),
+						Detail: fmt.Sprintf("op %d: upstream answered %d %q, Go client returned %T %q", c.Op.ID, status, body, c.Err, c.Err.Error())}
+				}
+			default:
+				if !strings.Contains(c.Err.Error(), fmt.Sprint(status)) {
+					return &Violation{Class: "client-error-loses-status", Signature: sig("client-error-loses-status"),
+						Detail: fmt.Sprintf("op %d: upstream answered %d %q, Go client returned %T %q (neither status nor body)", c.Op.ID, status, truncBytes(c.Op.Rogue.Body), c.Err, c.Err.Error())}
+				}
+			}
+		case "ts":
+			if c.TSError == nil {
+				continue
+			}
+			kind := fmt.Sprint(c.TSError["kind"])
+			if up == "0" && status == 400 {
+				if kind != "validation" || !errors.As(c.Err, &cve) || strings.Join(violationSet(cve), "|") != wantViolations {
+					return &Violation{Class: "client-400-not-validation-error", Signature: sig("client-400-not-validation-error"),
+						Detail: fmt.Sprintf("op %d: 400 with violations [%s], TS client rejected with %v", c.Op.ID, wantViolations, c.TSError)}
+				}
+			} else if kind != "api" || numInt(c.TSError["statusCode"]) != status || fmt.Sprint(c.TSError["body"]) != body {
+				return &Violation{Class: "client-error-loses-status", Signature: sig("client-error-loses-status"),
+					Detail: fmt.Sprintf("op %d: upstream answered %d %q, TS client rejected with %v (want an ApiError carrying status and body)", c.Op.ID, status, truncBytes(c.Op.Rogue.Body), c.TSError)}
+			}
+		}
+		cov.Tuple(k.W.Name, "upstream", c.Op.Client, fmt.Sprintf("status=%d", status), "kind="+up)
+	}
+	return nil
+}
+
 func (propC10) Draw(rt *rapid.T, w *WorldDesc, mode string) *Plan {
+	if mode == "upstream-errors" {
+		return drawUpstreamErrors(rt, w)
+	}
 	p := &Plan{}
 	var methods []*MethodDesc
 	for _, m := range w.AllMethods() {
@@ -55,6 +197,24 @@ func (propC10) Draw(rt *rapid.T, w *WorldDesc, mode string) *Plan {
 		}
 	case 6:
 		p.Hook = &HookPlan{Present: true, WriteBody: "hook wrote this", Status: rapid.SampledFrom([]int{0, 451}).Draw(rt, "hook.wstatus")}
+	}
+	if p.Hook != nil && rapid.IntRange(0, 2).Draw(rt, "hook.scope") == 0 {
+		// two registrations with different options in one process: only some services get the hook
+		var svcs []string
+		for _, f := range w.Spec().Files {
+			for _, s := range f.Services {
+				svcs = append(svcs, s.Name)
+			}
+		}
+		if len(svcs) > 1 {
+			keep := rapid.IntRange(0, len(svcs)-1).Draw(rt, "hook.svc")
+			p.Hook.Services = []string{svcs[keep]}
+		}
+	}
+	// a deadline middleware in front of the routes: a handler that fails after the deadline
+	// has passed (the caller still waiting) owes the caller the same error response
+	if rapid.IntRange(0, 3).Draw(rt, "srvDeadline") == 0 {
+		p.ServerDeadlineMs = 100
 	}
 	nOps := rapid.IntRange(1, 4).Draw(rt, "nOps")
 	p.Sequential = rapid.Bool().Draw(rt, "sequential")
@@ -173,6 +333,10 @@ func (propC10) Draw(rt *rapid.T, w *WorldDesc, mode string) *Plan {
 			m := NewFilled(rt, w.ErrorTypes[n], l+".customval", nil)
 			op.App = AppBehaviour{Kind: src, Custom: n, Bin: mustMarshal(m), Text: "wrapping layer"}
 		}
+		if p.ServerDeadlineMs > 0 && strings.HasPrefix(src, "err-") && rapid.Bool().Draw(rt, l+".late") {
+			op.App.DelayMs = p.ServerDeadlineMs + 50 // the handler fails after the middleware's deadline
+			op.Notes = append(op.Notes, "late=1")
+		}
 		op.Notes = append(op.Notes, "source="+src)
 		if useRaw {
 			if raw == nil {
@@ -184,6 +348,19 @@ func (propC10) Draw(rt *rapid.T, w *WorldDesc, mode string) *Plan {
 			if src == "header" {
 				// rebuild with the reduced header set
 				raw, _ = ValidRaw(rpc, req, ct, hdrs)
+			}
+			// media-type parameters do not change the codec family
+			if rapid.IntRange(0, 2).Draw(rt, l+".ctparam") == 0 {
+				for hi := range raw.Headers {
+					if strings.EqualFold(raw.Headers[hi][0], "Content-Type") {
+						switch ctFamily(raw.Headers[hi][1]) {
+						case "proto":
+							raw.Headers[hi][1] = rapid.SampledFrom([]string{"application/x-protobuf; proto=sim.v1.Req", "application/octet-stream; boundary=x", "application/x-protobuf;charset=utf-8"}).Draw(rt, l+".ctparamv")
+						default:
+							raw.Headers[hi][1] = rapid.SampledFrom([]string{"application/json; charset=utf-8", "application/json;charset=UTF-8"}).Draw(rt, l+".ctparamv")
+						}
+					}
+				}
 			}
 			op.Client = "raw"
 			op.Raw = raw
@@ -333,9 +510,13 @@ func expectedRuleFields(req proto.Message) []string {
 }
 
 func (propC10) Check(k *Kernel, cov *Coverage) *Violation {
+	if k.Plan.Mode == "upstream-errors" {
+		return checkUpstreamErrors(k, cov)
+	}
 	hp := k.Plan.Hook
-	hooked := hp != nil && hp.Present
 	for _, c := range k.Calls {
+		// the hook answers for the services it was registered with, and only for those
+		hooked := hp.AppliesTo(strings.SplitN(c.Op.RPC, "/", 2)[0])
 		src := noteOf(c.Op, "source")
 		if src == "" || len(c.Conns) == 0 {
 			continue
